@@ -12,6 +12,7 @@ A contract is a class with optional members
     raises   : dict exception class name -> fn(s)   exceptional postconditions: `raise X` implies cond_X, and
                                                     a normal return implies (not cond_X) for every listed X
     may_raise: list of exception class names that may escape without a stated condition (callers fork on them)
+    raises_if: dict exception class name -> fn(s)   one-sided: `raise X` implies cond_X (s.exc = the exception object)
     modifies : list of field names of `self` that the function may assign (materialised self only)
 
 `s` is a namespace whose attributes are the parameters (s.self, s.divisor, ...), `s.result`, and - in the native
@@ -41,6 +42,9 @@ class Contract:
         self.may_raise: List[str] = list(getattr(impl, "may_raise", []) or [])
         # one-sided exceptional postconditions: `raise X` implies cond_X (nothing is claimed on a normal return)
         self.raises_implies: Dict[str, Callable] = dict(getattr(impl, "raises_implies", {}) or {})
+        # one-sided exceptional postconditions: `raise X` implies cond_X(s) (s.exc is the exception); a normal return
+        # implies nothing about cond_X
+        self.raises_if: Dict[str, Callable] = dict(getattr(impl, "raises_if", {}) or {})
         self.modifies: List[str] = list(getattr(impl, "modifies", []) or [])
         self.establishes = getattr(impl, "establishes", None)  # for __init__: class whose spec is established
         self.self_kind = getattr(impl, "self_kind", None)
